@@ -20,6 +20,14 @@ fn strings(alpha: &[&str], min: usize, max: usize) -> Vec<String> {
     out
 }
 
+/// `padded` is `text` with nothing but fill characters (spaces or asterisks) around it.
+fn only_padded(padded: &str, text: &str) -> bool {
+    padded.match_indices(text).any(|(i, _)| {
+        let (l, r) = (&padded[..i], &padded[i + text.len()..]);
+        l.chars().chain(r.chars()).all(|c| c == ' ' || c == '*')
+    }) || (text.is_empty() && padded.chars().all(|c| c == ' ' || c == '*'))
+}
+
 fn check_nevra(n: &str, e: &str, v: &str, r: &str, a: &str, prio: u64, acc: &mut Acc) {
     acc.evals += 1;
     let case = || json!({"kind": "nevra", "name": n, "epoch": e, "version": v, "release": r, "arch": a});
@@ -31,7 +39,7 @@ fn check_nevra(n: &str, e: &str, v: &str, r: &str, a: &str, prio: u64, acc: &mut
         // formatting options of the caller (width, fill, alignment, a precision longer than the text) may pad the whole text, not re-shape it
         let mut fmt_differs = None;
         for padded in [format!("{:>64}", val), format!("{:<64}", val), format!("{:*^64}", val), format!("{:.4096}", val)] {
-            if padded.trim_matches(|c| c == ' ' || c == '*') != text {
+            if !only_padded(&padded, &text) {
                 fmt_differs = Some(format!("formatted with a width / precision the NEVRA reads {:?}, plainly it reads {:?}", padded, text));
             }
         }
@@ -93,7 +101,7 @@ fn check_evr(e: &str, v: &str, r: &str, prio: u64, acc: &mut Acc) {
         let norm = val.as_normalized_form();
         let mut fmt_differs = None;
         for padded in [format!("{:>64}", val), format!("{:<64}", val), format!("{:*^64}", val), format!("{:.4096}", val)] {
-            if padded.trim_matches(|c| c == ' ' || c == '*') != text {
+            if !only_padded(&padded, &text) {
                 fmt_differs = Some(format!("formatted with a width / precision the EVR reads {:?}, plainly it reads {:?}", padded, text));
             }
         }
@@ -252,6 +260,18 @@ pub fn run(ctx: &Ctx) -> i32 {
             acc.sample(i, || json!({"text": s}));
         }
     }));
+    // the whole character domain: every Unicode scalar value inside each component
+    let u = merge(par_fold(0x11_0000, Acc::new, |cp, acc| {
+        let Some(c) = char::from_u32(cp as u32) else { return };
+        // the characters that delimit the components cannot be inside every component; NUL is not text for rpm
+        if matches!(c, '-' | ':' | '.' | '\0') {
+            return;
+        }
+        check_nevra(&format!("a{}b", c), "1", &format!("2{}", c), &format!("{}3", c), "x", cp.wrapping_mul(0x9e3779b97f4a7c15), acc);
+        check_evr("", &format!("{}", c), &format!("r{}", c), cp.wrapping_mul(0x9e3779b97f4a7c15), acc);
+        check_nopanic(&format!("{0}-{0}:{0}-{0}.{0}", c), acc);
+    }));
+    let s5 = SubReport::new("unicode-scalars", "A", "every Unicode scalar value except '-', ':', '.' and NUL inside the name, the version and the release of a NEVRA and of an EVR (round trip as for the tuples), and in every component position of a text given to the parsers (no panic)", u);
     let mut s4 = SubReport::new("no-panic", "A", &format!("every string of length ≤ {} over {{a,1,-,.,:}} plus \"none\", \"gzip\", …, every sequence of ≤ 3 words from the vocabulary of compressor names and rpm payload flags (gzip … none, gzdio … ufdio, w, 9, 19, T, L, '.', ' ', '-') in both cases, and texts of length 3 … 4096 (every power of two ± 1) with a 2-, 3- or 4-byte character straddling the boundary, through Nevra::parse, Evr::parse, parse_values, rpm_evr_compare, CompressionType::from_str", l), d);
     for w in ["none", "gzip", "zstd", "xz", "bzip2", "", "é", "-:-.", ":::", "---"] {
         check_nopanic(w, &mut s4.acc);
@@ -285,7 +305,7 @@ pub fn run(ctx: &Ctx) -> i32 {
     s4.acc.nontrivial = s4.acc.evals; // every string is a case of the no-panic clause
     ctx.finish(
         "exploration",
-        vec![s1, s2, s3, s4],
+        vec![s1, s2, s3, s4, s5],
         &["component values a real package can carry: name without ':' not starting with '-'; version/release without '-' and ':'; arch without '.' and '-'"],
         vec![],
     )
